@@ -473,6 +473,36 @@ class ConcV:
     def cover(self, name):
         pass
 
+    def prove_lean(self, name, lean_file, theorems=()):
+        """obligation discharged by the Lean 4 kernel: `lean <file>` must accept the file, the named theorems must be stated in it, and the file
+        must not contain sorry / admit / axiom / native_decide / unsafe (mechanical scan)"""
+        import os, re, subprocess, time as _t
+        here = os.path.dirname(os.path.dirname(os.path.abspath(__file__)))
+        path = os.path.join(here, lean_file)
+        t0 = _t.time()
+        src = open(path).read()
+        body = re.sub(r"/-.*?-/", "", src, flags=re.S)
+        body = re.sub(r"--.*", "", body)
+        banned = [w for w in ("sorry", "admit", "axiom", "native_decide", "unsafe", "implemented_by", "extern") if re.search(r"\b%s\b" % w, body)]
+        missing = [t for t in theorems if not re.search(r"\b(theorem|lemma)\s+%s\b" % re.escape(t), body)]
+        detail = ""
+        ok = not banned and not missing
+        if banned or missing:
+            detail = "banned words %s, missing theorems %s" % (banned, missing)
+        else:
+            try:
+                r = subprocess.run(["lean", path], capture_output=True, text=True, timeout=1500, cwd=os.path.dirname(path))
+                out = (r.stdout + r.stderr).strip()
+                ok = r.returncode == 0 and "error" not in out and "sorry" not in out
+                detail = out[-800:]
+            except (OSError, subprocess.TimeoutExpired) as ex:
+                ok, detail = False, "lean could not be run: %r" % (ex,)
+        if not hasattr(self, "backends"):
+            self.backends, self.seconds = {}, {}
+        self.backends[name] = "lean"
+        self.seconds[name] = _t.time() - t0
+        return self.prove(name, ok, detail=detail)
+
     def fail(self, name, detail=""):
         self.checked.append(name)
         self.failed.append((name, detail))
